@@ -8,6 +8,7 @@ import (
 	"syscall"
 	"time"
 	"unsafe"
+	"vctl/internal/audit"
 
 	"vctl/internal/e1"
 	"vctl/internal/grog"
@@ -17,7 +18,7 @@ import (
 )
 
 var signalPoints = []string{"load.file", "lock.try", "lock.pidwritten", "build.locked", "walk.register", "walk.start", "cache.lookup", "exec.begin", "cmd.attempt",
-	"exec.outputs.pre", "file.write.cas", "dir.write.files", "dir.write.tree", "fs.set.tmp", "fs.set.rename", "fs.set.done", "exec.result.pre", "exec.result.post", "walk.complete", "pool.task.end", "walk.return", "file.load.cas", "dir.load.tree"}
+	"exec.outputs.pre", "file.write.cas", "dir.write.files", "dir.write.tree", "fs.set.tmp", "fs.set.copy", "fs.set.copy", "fs.set.copied", "fs.set.rename", "fs.set.done", "exec.result.pre", "exec.result.post", "walk.complete", "pool.task.end", "walk.return", "file.load.cas", "dir.load.tree"}
 
 // isZombie: dead but not yet reaped by its (new) parent.
 func isZombie(pid int) bool {
@@ -93,6 +94,10 @@ func RunC18(tier string) int {
 				nslow++
 			} else {
 				t.SleepMs = r.Intn(30)
+				if r.Chance(1, 3) {
+					// an output of a few MiB: the signal may arrive while it is being copied into the cache
+					t.Outs = append(t.Outs, spec.Out{Kind: "file", Path: "big_" + t.Name + ".out"})
+				}
 			}
 		}
 		gcfg := grog.Config{NumWorkers: r.Range(2, 4), FailFast: r.Chance(1, 4)}
@@ -285,6 +290,22 @@ func RunC18(tier string) int {
 					viol("result-written-for-interrupted-target", fmt.Sprintf("%s was interrupted but a target result was written for it", l))
 					return
 				}
+			}
+		}
+		// whatever the interrupted build left in the cache must be whole: every blob has the content
+		// its name says, every result references stored blobs
+		if stor, err := audit.LoadDir(env.CacheDir()); err == nil {
+			rep := audit.Audit(stor)
+			run.Count("cache_entries_audited_after_the_interrupt", rep.CasOK+rep.TargetOK+len(rep.CasBad)+len(rep.TargetBad))
+			if !rep.Clean() {
+				kind := "dangling-reference"
+				if len(rep.CasBad) > 0 {
+					kind = "blob-content-mismatch"
+				} else if len(rep.TargetBad) > 0 {
+					kind = "target-result-undecodable"
+				}
+				viol("cache-inconsistent-after-interrupt "+kind+" at="+pcl, fmt.Sprintf("after %s at %s the cache at rest is inconsistent: %s", sig, placement, rep.Summary()))
+				return
 			}
 		}
 		run.Count("target_shells_checked_after_exit", len(obs.ShellPids))
